@@ -93,10 +93,38 @@ def symbolize(exe, pcs):
     return res
 
 
+def _own_name(fn):
+    """Qualified name of the function itself: template arguments and the parameter list removed."""
+    out, depth = "", 0
+    for ch in fn.split("(")[0] if not fn.startswith("(") else fn:
+        if ch == "<":
+            depth += 1
+        elif ch == ">":
+            depth = max(0, depth - 1)
+        elif depth == 0:
+            out += ch
+    return out
+
+
+def _is_tulz_fn(fn):
+    """The function is a member of tulz::, or a standard-library template instantiated for tulz types (its own
+    code runs on behalf of tulz: e.g. std::_Rb_tree<.., tulz::SubjectRouter::Node ..>::_M_erase_aux called by
+    Node::shrink). Harness and scheduler functions never count; the harnesses keep their own shared state out of
+    the recording (rd_ignore) so that this rule has nothing of theirs to match."""
+    name = _own_name(fn)
+    if name.startswith(("(anonymous namespace)", "vs::", "hr::", "rd::", "trk::")):
+        return False
+    return "tulz::" in fn
+
+
 def in_tulz(frames):
+    """A site is tulz code if some (inlined) frame lies in the repository's sources, or is a tulz:: function
+    (implicit destructors and template instantiations carry standard-library file names)."""
     root = str(common.REPO)
     for fn, loc in frames:
         if loc.startswith(root + "/include/") or loc.startswith(root + "/src/"):
+            return True
+        if _is_tulz_fn(fn):
             return True
     return False
 
@@ -106,6 +134,9 @@ def site(frames):
     for fn, loc in frames:
         if loc.startswith(root + "/"):
             return "%s %s" % (loc[len(root) + 1:].split(" ")[0], fn.split("(")[0][-60:])
+    for fn, loc in frames:
+        if _is_tulz_fn(fn):
+            return "%s (%s)" % (_own_name(fn)[-70:], loc.split("/")[-1].split(" ")[0])
     return frames[0][1] if frames else "?"
 
 
